@@ -414,3 +414,35 @@ func init() {
 		}
 	}
 }
+
+func init() {
+	// C18: a fee paid in an 18-decimal asset whose only pool holds one base unit of it: converting ten whole tokens through that
+	// pool makes the pool arithmetic itself panic (the reserve ratio rounds to zero). Several sizes of pool and fee.
+	scenarios["c18-fee-conversion-panics-in-pool-math"] = func(sc *Scn) {
+		w := sc.w
+		u := w.Accts[1]
+		big18 := math.NewIntWithDecimal(1, 24)
+		w.Seed(func(ctx sdk.Context) {
+			w.App.AssetprofileKeeper.SetEntry(ctx, aptypes.Entry{BaseDenom: "aeth", Denom: "aeth", Decimals: 18, DisplayName: "ETH", CommitEnabled: true, WithdrawEnabled: true})
+			w.Fund(ctx, w.Accts[0].Addr, sdk.NewCoins(sdk.NewCoin("aeth", big18)))
+			w.Fund(ctx, u.Addr, sdk.NewCoins(sdk.NewCoin("aeth", big18)))
+			w.createPool(ctx, w.Accts[0].Addr, false, D("0.001"), "aeth", math.NewInt(1), math.NewInt(1), 10, 10)
+		})
+		sc.Empty(5 * time.Second)
+		for _, fee := range []math.Int{math.NewIntWithDecimal(1, 19), math.NewIntWithDecimal(3, 18), math.NewIntWithDecimal(1, 21), math.NewInt(7)} {
+			tx := &histTx{kind: "bank.send", f: J{"signer": u.Addr.String(), "fee": [][]string{{"aeth", fee.String()}}},
+				req: TxReq{Signer: u, Fee: sdk.NewCoins(sdk.NewCoin("aeth", fee)),
+					Msgs: []sdk.Msg{banktypes.NewMsgSend(u.Addr, w.Accts[2].Addr, sdk.NewCoins(sdk.NewCoin("uusdc", math.NewInt(5))))}}}
+			if !emitBlock(w, sc.out, sc.id, []*histTx{tx}, 5*time.Second, sc.stats) {
+				return
+			}
+			sc.Empty(5 * time.Second)
+		}
+		// the same through the swap queue: the request passes its dry run on a deeper pool state and is executed at the end of
+		// the block after an exit has left dust
+		sc.Tx("amm.swapIn", u, J{"pool": 5, "in": []string{"aeth", "10000000000000000000"}, "hops": 1, "recipient": u.Addr.String()},
+			&ammtypes.MsgSwapExactAmountIn{Sender: u.Addr.String(), Routes: []ammtypes.SwapAmountInRoute{{PoolId: 5, TokenOutDenom: "uusdc"}},
+				TokenIn: sdk.NewCoin("aeth", math.NewIntWithDecimal(1, 19)), TokenOutMinAmount: math.ZeroInt(), Recipient: u.Addr.String()})
+		sc.Empty(5 * time.Second)
+	}
+}
